@@ -359,9 +359,17 @@ def write_cfg(template, subst, path):
     return path
 
 
+MAX_CHUNK_EVENTS = 150000
+
+
 def _segments(hists, idxs, nchunks):
     total = sum(len(hists[i]) + 1 for i in idxs)
-    nchunks = nchunks or max(1, min(NCPU, total // 1500 + 1))
+    if not nchunks:
+        nchunks = max(1, min(NCPU, total // 1500 + 1))
+        if total > NCPU * MAX_CHUNK_EVENTS:
+            # a thorough run: more chunks than cores (run NCPU at a time) rather than chunks that one TLC cannot
+            # finish within its time limit
+            nchunks = -(-total // MAX_CHUNK_EVENTS)
     per = total / nchunks
     segs = [[]]
     acc = 0
